@@ -70,6 +70,19 @@ def step (s : StrMap) (refused : Bool) : Op → Out × StrMap
   | .size => ({ val := some s.size }, s)
   | .enumerate => ({ enum := s.items }, s)
 
+/-- the key an operation mentions -/
+def Op.key : Op → Option SKey
+  | .add k _ _ => some k
+  | .get k => some k
+  | .contains k => some k
+  | .remove k => some k
+  | _ => none
+
+/-- a history; each operation comes with the flag "an allocator request of this call was refused" -/
+def run (s : StrMap) : List (Bool × Op) → List Out × StrMap
+  | [] => ([], s)
+  | (f, op) :: ops => let r := s.step f op; let rs := run r.2 ops; (r.1 :: rs.1, rs.2)
+
 /-! ### ideal cursor: the keys still to be yielded and the key yielded last -/
 structure Cursor where
   todo : List SKey := []
